@@ -23,13 +23,16 @@ import (
 // of the descriptor and rejects the change for a non-configurable property.
 //
 // (a) The two must use the same tests: every test that can trigger a flip is consulted by the
-//     condition that tests existing.accessor. A trigger the guard does not look at is a descriptor
-//     that converts a non-configurable property to the other kind (spec 10.1.6.3 step 4-6:
-//     IsDataDescriptor is "has [[Value]] or [[Writable]]", IsAccessorDescriptor "has [[Get]] or
-//     [[Set]]" - present, not callable).
+//
+//	condition that tests existing.accessor. A trigger the guard does not look at is a descriptor
+//	that converts a non-configurable property to the other kind (spec 10.1.6.3 step 4-6:
+//	IsDataDescriptor is "has [[Value]] or [[Writable]]", IsAccessorDescriptor "has [[Get]] or
+//	[[Set]]" - present, not callable).
+//
 // (b) A flip drops the payload of the other kind on the same record: accessor = false comes with
-//     getterFunc = nil and setterFunc = nil, accessor = true with value = nil; a left-over getter
-//     is resurrected by the next partial accessor descriptor.
+//
+//	getterFunc = nil and setterFunc = nil, accessor = true with value = nil; a left-over getter
+//	is resurrected by the next partial accessor descriptor.
 var KindFlip = &core.Rule{Name: "R-KINDFLIP", Run: runKindFlip,
 	Doc: "in _defineOwnProperty every descriptor test that can flip a property between data and accessor is consulted by the condition comparing it with the existing kind, and a flip clears the payload of the other kind"}
 
